@@ -359,8 +359,58 @@ def scn_flag_compose(d: Draw) -> Optional[dict]:
     return base_scn(spec, ops)
 
 
+P_C20B = gen.profile(w_nested=0, n_stmts=(3, 9), p_flag=0.1, p_async=0.0, p_setup=0.0, p_debug=0.0, p_default=0.6, n_params=(0, 2), p_unpack=0.3,
+                     ret_types=[("int", 6), ("bool", 2), ("tuple2", 2), ("dict", 1)])
+P_C20O = gen.profile(w_nested=6, max_depth=1, p_explicit_default=0.8, p_default=0.6, n_params=(0, 2), p_flag=0.1, n_stmts=(1, 5),
+                     p_nested_flag=0.0, p_pass=0.2)
+
+
 def g_c20(d: Draw) -> dict:
+    if d.bool(0.12):
+        scn = scn_nest_composed(d)
+        if scn is not None:
+            return scn
     return scn_value(d, P_C20, config=0.05)
+
+
+def scn_nest_composed(d: Draw) -> Optional[dict]:
+    """A DAG obtained with compose() is a DAG like any other: nested in a describing function it behaves as if the composed
+    part had been written in place (its node table is not in description order: compose builds it from a set)."""
+    pg = gen.ProgramGen(d, P_C20B)
+    pg.gen_dag(0, "base")
+    bd = pg.dags["base"]
+    calls = [i for i, s_ in enumerate(bd["stmts"]) if s_["k"] == "call" and not s_["unpack"]]
+    in_c = [i for i in calls if pg.funcs[bd["stmts"][i]["fn"]]["ret"] in ("int", "bool") and bd["stmts"][i]["flag"] is None]
+    if not calls:
+        return None
+    outs = d.sample(calls, d.int(1, min(3, len(calls))))
+    ins = [i for i in d.sample(in_c, d.int(0, min(2, len(in_c)))) if i not in outs]
+    # an input must not depend on another input (refused by compose): keep the inputs that no other input feeds
+    g = flat_graph({"dags": pg.dags}, "base")
+    from .ref import gen_descendants
+    desc = gen_descendants(g["succ"])
+    ins = [i for i in ins if not any(("s", i) in desc[("s", j)] for j in ins if j != i)]
+    der = gen.derive_composed(pg.dags, pg.funcs, "base", ins, outs, "cmpd")
+    if der is None:
+        return None
+    pg.dags["cmpd"] = der
+    pg.order.append("cmpd")
+    bd["no_nest"] = True   # (a top-level DAG: may return nothing or a constant)
+    pg.prof = P_C20O
+    for _ in range(4):
+        # (describe main until it nests the composed DAG; bounded retries keep the draw count finite)
+        pg.dags.pop("main", None)
+        if "main" in pg.order:
+            pg.order.remove("main")
+        pg.gen_dag(0, "main")
+        if any(s_["k"] == "dag" and s_["dag"] == "cmpd" for s_ in pg.dags["main"]["stmts"]):
+            break
+    else:
+        return None
+    spec = {"funcs": pg.funcs, "dags": pg.dags, "order": pg.order, "main": "main"}
+    dg = spec["dags"]["main"]
+    ops = [dict(op="call", inst="E:main", args=draw_args(d, dg)) for _ in range(d.count(1, 2, 0.5))]
+    return base_scn(spec, ops)
 
 
 reg(Prop("C01", g_c01, {"value": "C01.a", "raise": "C01.b", "build_raise": "C01.b"}, nontrivial="multi", n_sched=3))
